@@ -105,6 +105,38 @@ fn test(c: &Case, st: &mut Stats) -> TestResult {
                 format!("the parser refuses what the builder serialised: {}; {} bytes {}", err_name(&e), built.len(), hex_short(&built)),
             )
         })?;
+    // the same message serialised in place into a caller buffer that is not zeroed (a re-used
+    // send buffer): it must read back the same way
+    {
+        let mut dest = vec![0xA5u8; built.len() + 4];
+        let n = guard(|| b.write_into(&mut dest))
+            .map_err(|p| Fail::new("c03-panic", format!("write_into panicked: {}", p)))?
+            .map_err(|e| Fail::new("c03-parse", format!("write_into a buffer of byte_len()+4 bytes failed: {:?}", e)))?;
+        let view = &dest[..n.min(dest.len())];
+        let m2 = guard(|| Message::from_bytes(view))
+            .map_err(|p| Fail::new("c03-panic", format!("parsing the written message panicked: {}", p)))?
+            .map_err(|e| {
+                Fail::new(
+                    "c03-parse",
+                    format!(
+                        "the parser refuses what write_into() serialised into a non-zeroed buffer: {}; {} bytes {} (build() gives {})",
+                        err_name(&e),
+                        view.len(),
+                        hex_short(view),
+                        hex_short(&built)
+                    ),
+                )
+            })?;
+        let a1: Vec<(u16, Vec<u8>)> = msg.iter_attributes().take(built.len() / 4 + 2).map(|a| (a.get_type().value(), a.value.to_vec())).collect();
+        let a2: Vec<(u16, Vec<u8>)> = m2.iter_attributes().take(built.len() / 4 + 2).map(|a| (a.get_type().value(), a.value.to_vec())).collect();
+        ensure!(
+            a1 == a2 && m2.get_type() == msg.get_type() && m2.transaction_id() == msg.transaction_id(),
+            "c03-attrs",
+            "the message written with write_into() reads back differently from the one from build(): [{}] vs [{}]",
+            show(&a2),
+            show(&a1)
+        );
+    }
     let tid: u128 = msg.transaction_id().into();
     ensure!(
         class_num(msg.class()) == spec.class & 3 && msg.method() == spec.method & 0xfff && tid == spec.tid & gen::TID_MASK,
